@@ -28,6 +28,7 @@ type c16cfg struct {
 	name   string
 	events []string // alphabet
 	depth  [2]int   // history length quick/thorough
+	burst  bool     // each step is a burst of two events with a gap, optionally with a slow system.peers read
 	t      [2]int   // schedule/timer deviations on top (total)
 }
 
@@ -55,9 +56,10 @@ var (
 	hA  = vhost{id: hostUUID(1), ip: "10.0.0.1", dc: "dc1", rack: "r1", tokens: []string{"1000"}}
 	hB  = vhost{id: hostUUID(2), ip: "10.0.0.2", dc: "dc1", rack: "r1", tokens: []string{"2000"}}
 	hC  = vhost{id: hostUUID(3), ip: "10.0.0.3", dc: "dc1", rack: "r2", tokens: []string{"3000"}}
-	hB4 = vhost{id: hostUUID(2), ip: "10.0.0.4", dc: "dc1", rack: "r1", tokens: []string{"2000"}}  // B after an address change
-	hD  = vhost{id: hostUUID(4), ip: "10.0.0.2", dc: "dc1", rack: "r1", tokens: []string{"4000"}}  // a new node on B's address
-	hX  = vhost{id: hostUUID(5), ip: "10.0.0.5", dc: "dc1", rack: "r1", noTok: true}               // invalid peer row
+	hB4 = vhost{id: hostUUID(2), ip: "10.0.0.4", dc: "dc1", rack: "r1", tokens: []string{"2000"}} // B after an address change
+	hD  = vhost{id: hostUUID(4), ip: "10.0.0.2", dc: "dc1", rack: "r1", tokens: []string{"4000"}} // a new node on B's address
+	hX  = vhost{id: hostUUID(5), ip: "10.0.0.5", dc: "dc1", rack: "r1", noTok: true}              // invalid peer row
+	hE  = vhost{id: hostUUID(6), ip: "10.0.0.4", dc: "dc1", rack: "r2", tokens: []string{"6000"}} // another joining node
 )
 
 func has(v *cview, id, ip string) bool {
@@ -103,9 +105,11 @@ func (c *c16cfg) body(depth int) {
 	view := &cview{hosts: []vhost{hA, hB}}
 	var peersLog, localLog []string
 	failNext := false
+	var peersDelay time.Duration
 	nodes := map[string]*sysnode{}
 	for _, ip := range []string{"10.0.0.1", "10.0.0.2", "10.0.0.3", "10.0.0.4", "10.0.0.5"} {
 		sn := &sysnode{cl: cl, view: func() *cview { return view }, self: ip, peersLog: &peersLog, localLog: &localLog,
+			peersDelay: func() time.Duration { return peersDelay },
 			failPeers: func() bool {
 				if failNext {
 					failNext = false
@@ -126,6 +130,9 @@ func (c *c16cfg) body(depth int) {
 	cfg := gocql.NewCluster("10.0.0.1")
 	cfg.ProtoVersion = 4
 	cfg.Timeout = 100 * time.Millisecond
+	if c.burst {
+		cfg.Timeout = 3 * time.Second // a slow (1.5s) system.peers read must not time out
+	}
 	cfg.ConnectTimeout = 100 * time.Millisecond
 	cfg.NumConns = 1
 	cfg.ReconnectInterval = 0
@@ -241,10 +248,10 @@ func (c *c16cfg) body(depth int) {
 		_ = ev
 	}
 
-	for step := 0; step < depth; step++ {
-		ev := c.events[vs.Choose(len(c.events), vs.Free)]
-		_, dBefore, _ := vs.Deviations()
-		peersBefore := len(peersLog)
+	var lastStatus map[string]string // address -> last status event of the current step
+	var dBefore int
+	viewChanged := false
+	apply := func(ev string) bool {
 		applied := true
 		switch ev {
 		case "add-C":
@@ -293,8 +300,17 @@ func (c *c16cfg) body(depth int) {
 			pushTopo("NEW_NODE", hB.ip)
 		case "down-B":
 			pushStatus("DOWN", hB.ip)
+			lastStatus[hB.ip] = "DOWN"
 		case "up-B":
 			pushStatus("UP", hB.ip)
+			lastStatus[hB.ip] = "UP"
+		case "add-E":
+			if has(view, hE.id, hE.ip) {
+				applied = false
+				break
+			}
+			view.hosts = append(view.hosts, hE)
+			pushTopo("NEW_NODE", hE.ip)
 		case "down-unknown":
 			pushStatus("DOWN", "10.0.0.9")
 		case "up-unknown":
@@ -328,6 +344,27 @@ func (c *c16cfg) body(depth int) {
 				vs.Failf("c16:query-failed", "query failed with %v although %d known hosts are up, after history %v", err, len(known)-len(down), hist)
 			}
 		}
+		return applied
+	}
+	for step := 0; step < depth; step++ {
+		ev := c.events[vs.Choose(len(c.events), vs.Free)]
+		_, dBefore, _ = vs.Deviations()
+		peersBefore := len(peersLog)
+		lastStatus = map[string]string{}
+		viewBefore := view.String()
+		applied := apply(ev)
+		if c.burst {
+			// a second event follows after a gap, possibly while the refresh caused by the first is in flight
+			gap := []time.Duration{0, 1200 * time.Millisecond, 2100 * time.Millisecond}[vs.Choose(3, vs.Free)]
+			peersDelay = []time.Duration{0, 1500 * time.Millisecond}[vs.Choose(2, vs.Free)]
+			ev2 := c.events[vs.Choose(len(c.events), vs.Free)]
+			if gap > 0 {
+				vs.Sleep(gap)
+			}
+			a2 := apply(ev2)
+			ev = fmt.Sprintf("%s+%v(peers %v)+%s", ev, gap, peersDelay, ev2)
+			applied = applied || a2
+		}
 		if !applied {
 			ev += "(n/a)"
 		}
@@ -351,17 +388,16 @@ func (c *c16cfg) body(depth int) {
 				refreshed = true
 			}
 		}
-		switch strings.TrimSuffix(ev, "(n/a)") {
-		case "down-B": // the event names an address: it concerns whichever known host lives there
-			for id, ip := range known {
-				if ip == hB.ip {
-					down[id] = true
-				}
-			}
-		case "up-B":
-			for id, ip := range known {
-				if ip == hB.ip {
-					delete(down, id)
+		viewChanged = view.String() != viewBefore
+		// status events name an address: they concern whichever known host lives there; the latest one of a burst wins
+		for ip, change := range lastStatus {
+			for id, kip := range known {
+				if kip == ip {
+					if change == "DOWN" {
+						down[id] = true
+					} else {
+						delete(down, id)
+					}
 				}
 			}
 		}
@@ -395,16 +431,23 @@ func (c *c16cfg) body(depth int) {
 			}
 		}
 		mustRefresh := map[string]bool{"add-C": true, "remove-B": true, "move-B": true, "replace-B-by-D": true, "invalid-peer": true, "duplicate-row": true, "up-unknown": true, "control-loss": true}
-		if applied && mustRefresh[ev] && !refreshed && !uncertain {
+		if applied && (mustRefresh[ev] || (c.burst && viewChanged)) && !refreshed && !uncertain {
 			_, d, _ := vs.Deviations()
 			if d == 0 {
-				vs.Failf("c16:no-refresh-after-"+ev, "event %s did not lead to a successful refresh within 4s after history %v (peers reads: %v)", ev, hist, peersLog[peersBefore:])
+				kev := ev
+				if c.burst {
+					kev = "a-burst-overlapping-a-slow-refresh"
+				}
+				vs.Failf("c16:no-refresh-after-"+kev, "event %s did not lead to a successful refresh within 4s after history %v (peers reads: %v)", ev, hist, peersLog[peersBefore:])
 			}
 		}
 		if n := len(peersLog) - peersBefore; n > 3 {
 			vs.Failf("c16:unbounded-refreshes", "event %s caused %d system.peers reads (history %v)", ev, n, hist)
 		}
 		check(ev)
+	}
+	if dbg := os.Getenv("C16_DEBUG"); dbg != "" && strings.Contains(strings.Join(hist, ","), dbg) {
+		fmt.Fprintf(os.Stderr, "C16_DEBUG history=%v choices=%v\n", hist, vs.ChoicesSoFar())
 	}
 	sort.Strings(hist[:0])
 	vs.Observe("%s -> known=%d down=%d", strings.Join(hist, ","), len(known), len(down))
@@ -427,6 +470,7 @@ func main() {
 		{name: "topology-histories", events: topo, depth: [2]int{4, 5}, t: [2]int{0, 0}},
 		{name: "status-histories", events: status, depth: [2]int{4, 5}, t: [2]int{0, 0}},
 		{name: "fault-histories", events: faults, depth: [2]int{4, 5}, t: [2]int{0, 0}},
+		{name: "bursts-with-slow-refresh", events: []string{"add-C", "add-E", "remove-B", "down-B", "up-B"}, burst: true, depth: [2]int{1, 2}, t: [2]int{0, 0}},
 		{name: "topology-with-schedule-deviation", events: []string{"replace-B-by-D", "move-B", "remove-B", "query"}, depth: [2]int{2, 2}, t: [2]int{1, 2}},
 	}
 	tier := 0 // the history depth depends on the tier; shard children inherit VERIF_TIER from bin/check
